@@ -1028,6 +1028,258 @@ func panicSites(files []string) string {
 	return sb.String()
 }
 
+// structFields: the field names of a struct type declared in the file
+func structFields(f *ast.File, typeName string) []string {
+	var out []string
+	ast.Inspect(f, func(n ast.Node) bool {
+		ts, ok := n.(*ast.TypeSpec)
+		if !ok || ts.Name.Name != typeName {
+			return true
+		}
+		if st, ok := ts.Type.(*ast.StructType); ok {
+			for _, fl := range st.Fields.List {
+				if len(fl.Names) == 0 {
+					out = append(out, exprString(fl.Type)) // embedded
+				}
+				for _, nm := range fl.Names {
+					out = append(out, nm.Name)
+				}
+			}
+		}
+		return false
+	})
+	return out
+}
+
+// sharedAccess: every access to a field of the EventLoop struct in eventloop.go, with the function (function
+// literals are functions of their own: they run later, possibly on another goroutine), whether it writes, whether it
+// goes through sync/atomic, and the mutexes of the loop held at that point.  C17's theorem `race_free` is decided
+// over this table.
+func sharedAccess() string {
+	f := mustFile("eventloop/eventloop.go")
+	fields := map[string]bool{}
+	for _, n := range structFields(f, "EventLoop") {
+		fields[n] = true
+	}
+	type acc struct {
+		fn, field     string
+		write, atomic bool
+		locks         []string
+	}
+	var accs []acc
+	isLoopField := func(x ast.Expr) (string, bool) {
+		se, ok := x.(*ast.SelectorExpr)
+		if !ok {
+			return "", false
+		}
+		id, ok := se.X.(*ast.Ident)
+		if !ok || id.Name != "loop" || !fields[se.Sel.Name] {
+			return "", false
+		}
+		return se.Sel.Name, true
+	}
+	var walkFunc func(name string, body *ast.BlockStmt)
+	walkFunc = func(name string, body *ast.BlockStmt) {
+		nlit := 0
+		var walkStmts func(stmts []ast.Stmt, held []string)
+		record := func(x ast.Node, held []string, forceWrite bool) {
+			// expressions: find loop.F occurrences; classify
+			writes := map[ast.Expr]bool{}
+			atomics := map[ast.Expr]bool{}
+			skip := map[ast.Expr]bool{}
+			ast.Inspect(x, func(n ast.Node) bool {
+				switch v := n.(type) {
+				case *ast.FuncLit:
+					return false
+				case *ast.AssignStmt:
+					for _, l := range v.Lhs {
+						writes[l] = true
+					}
+				case *ast.IncDecStmt:
+					writes[v.X] = true
+				case *ast.CallExpr:
+					if se, ok := v.Fun.(*ast.SelectorExpr); ok {
+						// loop.<mutex|cond>.<Method>() is a synchronisation action, not a data access
+						if _, ok := isLoopField(se.X); ok {
+							skip[se.X] = true
+						}
+						if pk, ok := se.X.(*ast.Ident); ok && pk.Name == "atomic" && len(v.Args) > 0 {
+							if ue, ok := v.Args[0].(*ast.UnaryExpr); ok && ue.Op == token.AND {
+								atomics[ue.X] = true
+								if !strings.HasPrefix(se.Sel.Name, "Load") {
+									writes[ue.X] = true
+								}
+							}
+						}
+					}
+				case *ast.SendStmt:
+					skip[v.Chan] = true
+				case *ast.UnaryExpr:
+					if v.Op == token.ARROW {
+						skip[v.X] = true
+					}
+				}
+				return true
+			})
+			ast.Inspect(x, func(n ast.Node) bool {
+				if _, ok := n.(*ast.FuncLit); ok {
+					return false
+				}
+				if e, ok := n.(ast.Expr); ok {
+					if fld, ok := isLoopField(e); ok && !skip[e] {
+						accs = append(accs, acc{name, fld, writes[e] || forceWrite, atomics[e], append([]string(nil), held...)})
+						// x = append(x, ...) reads as well; one write entry is enough for the conflict analysis
+						return false
+					}
+				}
+				return true
+			})
+			// function literals: functions of their own
+			ast.Inspect(x, func(n ast.Node) bool {
+				if fl, ok := n.(*ast.FuncLit); ok {
+					nlit++
+					walkFunc(fmt.Sprintf("%s$lit%d", name, nlit), fl.Body)
+					return false
+				}
+				return true
+			})
+		}
+		lockOp := func(s ast.Stmt) (string, string) {
+			var call *ast.CallExpr
+			switch v := s.(type) {
+			case *ast.ExprStmt:
+				call, _ = v.X.(*ast.CallExpr)
+			}
+			if call == nil {
+				return "", ""
+			}
+			se, ok := call.Fun.(*ast.SelectorExpr)
+			if !ok || (se.Sel.Name != "Lock" && se.Sel.Name != "Unlock") {
+				return "", ""
+			}
+			if fld, ok := isLoopField(se.X); ok {
+				return fld, se.Sel.Name
+			}
+			return "", ""
+		}
+		walkStmts = func(stmts []ast.Stmt, held []string) {
+			for _, st := range stmts {
+				if fld, op := lockOp(st); fld != "" {
+					if op == "Lock" {
+						held = append(append([]string(nil), held...), fld)
+					} else {
+						var nh []string
+						for _, h := range held {
+							if h != fld {
+								nh = append(nh, h)
+							}
+						}
+						held = nh
+					}
+					continue
+				}
+				switch v := st.(type) {
+				case *ast.DeferStmt:
+					continue // defer X.Unlock(): held until the function returns
+				case *ast.BlockStmt:
+					walkStmts(v.List, held)
+				case *ast.IfStmt:
+					if v.Init != nil {
+						record(v.Init, held, false)
+					}
+					record(v.Cond, held, false)
+					walkStmts(v.Body.List, held)
+					if v.Else != nil {
+						walkStmts([]ast.Stmt{v.Else}, held)
+					}
+				case *ast.ForStmt:
+					if v.Init != nil {
+						record(v.Init, held, false)
+					}
+					if v.Cond != nil {
+						record(v.Cond, held, false)
+					}
+					if v.Post != nil {
+						record(v.Post, held, false)
+					}
+					walkStmts(v.Body.List, held)
+				case *ast.RangeStmt:
+					record(v.X, held, false)
+					walkStmts(v.Body.List, held)
+				case *ast.SelectStmt:
+					for _, c := range v.Body.List {
+						cc := c.(*ast.CommClause)
+						if cc.Comm != nil {
+							record(cc.Comm, held, false)
+						}
+						walkStmts(cc.Body, held)
+					}
+				case *ast.SwitchStmt:
+					if v.Tag != nil {
+						record(v.Tag, held, false)
+					}
+					for _, c := range v.Body.List {
+						walkStmts(c.(*ast.CaseClause).Body, held)
+					}
+				case *ast.LabeledStmt:
+					walkStmts([]ast.Stmt{v.Stmt}, held)
+				default:
+					record(st, held, false)
+				}
+			}
+		}
+		walkStmts(body.List, nil)
+	}
+	for _, d := range f.Decls {
+		fd, ok := d.(*ast.FuncDecl)
+		if !ok || fd.Body == nil {
+			continue
+		}
+		name := fd.Name.Name
+		if fd.Recv != nil && len(fd.Recv.List) > 0 {
+			t := fd.Recv.List[0].Type
+			if st, ok := t.(*ast.StarExpr); ok {
+				t = st.X
+			}
+			if id, ok := t.(*ast.Ident); ok {
+				name = id.Name + "." + name
+			}
+		}
+		walkFunc(name, fd.Body)
+	}
+	// merge duplicates
+	type key struct {
+		fn, field, locks string
+		write, atomic    bool
+	}
+	seen := map[key]bool{}
+	var sb strings.Builder
+	sb.WriteString("structure Access where\n  fn : String\n  field : String\n  write : Bool\n  atomic : Bool\n  locks : List String\n  deriving Repr, DecidableEq\n\n")
+	sb.WriteString("def elAccesses : List Access := [\n")
+	var lines []string
+	for _, a := range accs {
+		sort.Strings(a.locks)
+		k := key{a.fn, a.field, strings.Join(a.locks, ","), a.write, a.atomic}
+		if seen[k] {
+			continue
+		}
+		seen[k] = true
+		lines = append(lines, fmt.Sprintf("  ⟨%s, %s, %v, %v, %s⟩", leanStr(a.fn), leanStr(a.field), a.write, a.atomic, leanStrList(a.locks)))
+	}
+	sort.Strings(lines)
+	sb.WriteString(strings.Join(lines, ",\n"))
+	sb.WriteString("\n]\n\n")
+	var fl []string
+	for _, n := range structFields(f, "EventLoop") {
+		fl = append(fl, n)
+	}
+	sb.WriteString("def eventLoopFields : List String := " + leanStrList(fl) + "\n\n")
+	rf := mustFile("require/module.go")
+	sb.WriteString("def registryFields : List String := " + leanStrList(structFields(rf, "Registry")) + "\n\n")
+	sb.WriteString("def requireModuleFields : List String := " + leanStrList(structFields(rf, "RequireModule")) + "\n")
+	return sb.String()
+}
+
 type fragment struct {
 	name string
 	gen  func() string
@@ -1256,6 +1508,11 @@ structure MethodFacts where
 			})
 			return "def formatDirectives : List String := " + leanStrList(ds) + "\n"
 		}},
+	})
+
+	// ---- accesses to the state shared between goroutines (C17)
+	emitFile("SharedAccess.lean", hdr, []fragment{
+		{"sharedAccess", sharedAccess},
 	})
 
 	// ---- inventory of potential run-time panic sites (C09)
